@@ -184,6 +184,7 @@ func (e *Exec) load(p Ptr) Value {
 	if p.obj == nil {
 		panic(mkEnd("panic", "nil pointer dereference"))
 	}
+	e.access(p, false)
 	get, _ := locate(Ptr{obj: p.obj, path: p.path})
 	v := get()
 	if p.idx == nil {
@@ -226,6 +227,7 @@ func (e *Exec) store(p Ptr, v Value) {
 	if p.obj == nil {
 		panic(mkEnd("panic", "nil pointer dereference (store)"))
 	}
+	e.access(p, true)
 	get, set := locate(Ptr{obj: p.obj, path: p.path})
 	if p.idx == nil {
 		set(copyVal(v))
